@@ -12,7 +12,11 @@ object graph (every attribute of the connection, its stats, callbacks, fragment 
 server context with its pools and the handler's event log, the client with its socket) taken
 before and after each injected datagram must be equal except stats.dropped (+1), the call
 must return False, nothing may reach the application; a session with injected forgeries must
-end in the same state and with the same deliveries / callbacks as its twin without them."""
+end in the same state and with the same deliveries / callbacks as its twin without them.
+Server loop (harness/srvx.py, every front door): twin worlds with forgeries next to genuine datagrams (server_loop_forgeries), and
+silent-victim twin worlds (server_loop_silent_victims): a peer that stopped sending, with keyless forgeries from its address in every
+tick / every other tick / in bursts / around the deadline, must be dropped by the loop's time-out scan at exactly the twin's tick
+(liveness as the application sees it: EventHandler.disconnect, pool membership); both also replayed on Server.v (srv_run)."""
 import struct, binascii, collections, inspect, logging, random, enum, types
 from harness import lib
 from harness import connsim as S
@@ -1114,6 +1118,218 @@ def server_loop_forgeries(run, rng, fronts, steps):
             raise RuntimeError("harness: no forgery was placed in front of a genuine datagram of the same length (%s)" % front)
         run.nt(("server-loop-twin", front, nf))
 
+
+# ------------------------------------------------------------------ liveness as the server loop sees it: a peer that went silent
+
+SILENT_RULE = ("silent-victim twin worlds (harness/srvx.py, every front door): a short configured connection / temp-connection time-out; an established "
+               "victim (and a half-open one that holds a session key but never answers the challenge) stops sending; from its address keyless forgeries "
+               "(made from its recorded datagrams: same-shape junk under any header, re-typed, seq/ack rewritten, bit-flipped, truncated, valid-CRC "
+               "plaintext of EVERY packet type, wrong key, random body) arrive every tick / every other tick / in bursts every third tick / only in the "
+               "ticks around the deadline / as the last datagrams of each tick, next to an honest talking client; the twin has the same seed and no "
+               "forgeries: the victim's disconnect event and the removal of its pool entries must happen at exactly the twin's tick; non-trivial = "
+               "twin pair whose victim was dropped by time-out in the twin while >= 1 forgery per pattern tick was queued for it")
+SILENT_PATTERNS = ["every", "alternate", "burst", "deadline", "every-last"]
+
+
+def silent_forgery(arng, keys, src, now_hdr):
+    """a datagram made without the key from a recorded genuine datagram `src` of the victim (any class of forge_from, and valid-CRC plaintext
+    of every packet type with 0/1/2 messages)"""
+    cls = arng.choice(FORGE_CLASSES + ["same-shape-typed", "plain-any-type", "plain-any-type", "header-only"])
+    if cls == "plain-any-type":
+        h = S.unpack_header(src)
+        t = arng.randrange(0, 8)
+        cnt = arng.choice([0, 1, 1, 2])
+        if cnt == 2:
+            pl = enc_multi([(arng.randrange(1, RING), arng.choice([4, 5, 6, 3]), b"x"), (arng.randrange(1, RING), arng.choice([4, 5, 6]), b"")])
+        elif cnt == 1:
+            pl = struct.pack(">H", arng.randrange(1, RING)) + arng.choice([b"", b"FORGED-WHILE-SILENT"])
+        else:
+            pl = b""
+        return cls + ":%d" % t, crc_frame(S.pack_header([1, h[1], wire(h[2] + arng.choice([1, 2, 50])), h[3], t, len(pl), cnt, 0xFFFFFFFF]), pl)
+    if cls == "header-only":
+        h = S.unpack_header(src)
+        return cls, S.pack_header([1, h[1], wire(h[2] + 1), h[3], arng.choice([3, 4, 5, 6]), 0, arng.choice([0, 1]), 0])
+    return cls, forge_from(arng, keys, src, cls)
+
+
+def silent_victim_world(run, seed, front, attacked, pattern, cfg, talk_steps, total_steps, plan=None):
+    """real clients around the real server loop behind `front`.  addrs[0] keeps talking; addrs[1] (established) and addrs[2] (half-open: it
+    sent its hello and never reads the answer) go silent at step `talk_steps`.  attacked: forgeries from the silent addresses per `pattern`.
+    plan (from the twin, for pattern 'deadline'): the harness steps after which the twin dropped the victims."""
+    from harness import srvsim as V, srvx as X
+    from mpgameserver.connection import PacketHeader
+    rng = random.Random(seed)
+    arng = random.Random(seed * 104729 + 5)
+    policy = V.random_policy(rng, p_raise=rng.choice([0.0, 0.2]), echo=1.0, chatty=False)
+    w = X.WorldX(run, rng, cfg=cfg, policy=policy, full=True, front=front, sentinel_first=(pattern == "every-last"),
+                 configure=rng.choice(["before", "between"]))
+    sim = w.sim
+    addrs = [("10.1.0.1", 5000), ("10.1.0.2", 5001), ("10.1.0.3", 5002)]
+    forged_log = {}
+    queued = {a: 0 for a in addrs}
+    half_hello = {}
+    try:
+        recs = [w.add_client(a) for a in addrs[:2]]
+        half = w.add_client(addrs[2])
+        half["ticking"] = True
+
+        def half_edit(rec, d):
+            half_hello.setdefault("d", d)
+            return d
+        half["edit"] = half_edit
+        recs.append(half)
+        for st in range(total_steps):
+            silent = st >= talk_steps
+            if st == 1:
+                half["ticking"] = False           # its hello is out; it never reads the server hello, never answers the challenge
+            if silent:
+                recs[1]["ticking"] = False
+            for i, rec in enumerate(recs[:2]):
+                hc = rec["hc"]
+                if rec["ticking"] and hc.status() == 2:
+                    for _ in range(rng.choice([0, 1, 1, 2])):
+                        hc.client.send(b"s%d-%d-%d-" % (i, st, rng.randrange(1000)) + bytes(rng.randrange(256) for _ in range(rng.choice([0, 3, 40]))),
+                                       retry=rng.choice([0, 1, -1]))
+            extra = []
+            if attacked:
+                for vi, a in ((1, addrs[1]), (2, addrs[2])):
+                    since = (st - talk_steps) if vi == 1 else (st - 1)
+                    if since < 0:
+                        continue
+                    dl = (plan or {}).get(vi)
+                    phase = (st - dl) if dl is not None else since        # every other / every third tick, the twin's deadline tick being one of them
+                    if pattern in ("every", "every-last"):
+                        n = 1
+                    elif pattern == "alternate":
+                        n = 1 if phase % 2 == 0 else 0
+                    elif pattern == "burst":
+                        n = 5 if phase % 3 == 0 else 0
+                    else:
+                        n = arng.choice([1, 2]) if dl is not None and dl - 2 <= st <= dl + 3 else 0
+                    srcs = [d for (x, d) in w.sent_hist if x == a and len(d) >= 24] or [half_hello.get("d")]
+                    for _ in range(n):
+                        src = arng.choice(srcs[-4:])
+                        cls, x = silent_forgery(arng, sim.keys, src, None)
+                        if len(x) > 12 and (x[12] == 1 or (vi == 2 and arng.random() < 0.6)):
+                            # only CHALLENGE_RESP-typed datagrams reach a half-open slot's object; and no forgery is typed CLIENT_HELLO:
+                            # once the address has left the pools such a datagram legitimately opens a NEW slot (no key exists then: not C01)
+                            x = x[:12] + b"\x03" + x[13:]
+                            cls += "+typed-challenge"
+                        try:
+                            PacketHeader.from_bytes(True, x)
+                            queued[a] += 1
+                            ok = 1
+                        except Exception:
+                            ok = 0
+                        forged_log.setdefault(st, []).append((a, cls, ok, x))
+                        extra.append((a, x))
+            rand = [0x32000000 + 16 * st + i for i in range(8)]
+            if not w.step(300, extra, rand):
+                break
+        w.finish()
+        res = {"log": [_canon_entry(o) for o in sim.log], "states": [_canon_state(s_) for s_ in sim.states], "marks": list(sim.marks),
+               "forged": forged_log, "queued": queued, "got": [sorted(r["hc"].got) for r in recs[:1]],
+               "died": sim.died, "internal": list(sim.internal), "addrs": addrs, "configure": sim.configure}
+        # when (harness step) did each silent address leave the pools / get its disconnect event?
+        cid_of = {}
+        for st_ in sim.states:
+            for pool in st_:
+                for c in pool:
+                    cid_of.setdefault(V.va(c[1]), c[0])
+        res["cid"] = {a: cid_of.get(a) for a in addrs}
+        gone = {}
+        for vi, a in ((1, addrs[1]), (2, addrs[2])):
+            seen = False
+            for k, st_ in enumerate(sim.states):
+                here = any(V.va(c[1]) == a for pool in st_ for c in pool)
+                seen = seen or here
+                if seen and not here:
+                    gone[vi] = k - 1          # states[k] is taken in U_k: the entry left in S_{k-1}, i.e. after harness step k-1 was fed
+                    break
+        res["gone"] = gone
+        disc = {}
+        for i, o in enumerate(sim.log):
+            if o[0] == 0 and o[1][0] == 5:
+                k = next((kk for kk, m in enumerate(sim.marks) if i < m), len(sim.marks))
+                disc.setdefault(o[1][1], k - 1)
+        res["disconnect_event"] = {vi: disc.get(res["cid"].get(addrs[vi])) for vi in (1, 2)}
+        res["model_diff"] = sim.check_model(observe_errors=True) if attacked else None
+        return res
+    finally:
+        w.close()
+
+
+def server_loop_silent_victims(run, rng, fronts, thorough):
+    """C01, liveness clause, at the server loop: 'a datagram not produced with the session key is discarded without ... changing the key, status
+    or liveness clock'.  Whether and WHEN the loop reaps a silent connection is the liveness the application sees (EventHandler.disconnect,
+    ServerContext.connections).  Twin worlds; the attacked world must be tick-for-tick the twin."""
+    from harness import srvx as X
+    offset = rng.randrange(len(SILENT_PATTERNS))
+    for nw, front in enumerate(fronts):
+        seed = rng.randrange(1 << 30)
+        pattern = SILENT_PATTERNS[(nw + offset) % len(SILENT_PATTERNS)]
+        ct = rng.choice([3000, 4500, 6000])            # connection time-out in ticks: 10 / 15 / 20 steps of 300
+        tt = rng.choice([1500, 3000, 4500])
+        cfg = (ct, tt, 1536, T)
+        talk = rng.choice([6, 8, 10])
+        total = talk + ct // 300 + 12
+        case = {"scenario": "silent-victim-twin", "front": front, "seed": seed, "pattern": pattern, "connection_timeout_ticks": ct,
+                "temp_connection_timeout_ticks": tt, "victim_silent_from_step": talk, "steps": total}
+        with X.logging_enabled():
+            B = silent_victim_world(run, seed, front, False, pattern, cfg, talk, total)
+            A = silent_victim_world(run, seed, front, True, pattern, cfg, talk, total, plan=B["gone"])
+        run.evaluations += len(A["log"])
+        if A["internal"] or B["internal"]:
+            raise RuntimeError("harness-internal problem: %s" % (A["internal"] + B["internal"])[:3])
+        if B["died"] or 1 not in B["gone"] or 2 not in B["gone"] or B["disconnect_event"].get(1) is None:
+            raise RuntimeError("harness: the twin world behind %s did not time its silent peers out (%r)" % (front, B["gone"]))
+        if not any(o[0] == 0 and o[1][0] == 4 for o in B["log"]):
+            raise RuntimeError("harness: the undisturbed silent-victim world behind %s delivered nothing" % front)
+
+        def forged_of(k):
+            return [[list(a), cls, ok, x[:40]] for (a, cls, ok, x) in A["forged"].get(k, [])][:6]
+        bad = None
+        if A["died"]:
+            bad = dict(case, what_differs="the server loop died")
+        for vi, name in ((1, "established"), (2, "half-open")):
+            if bad is None and A["gone"].get(vi) != B["gone"][vi]:
+                bad = dict(case, what_differs="tick at which the silent %s peer left the server's pools" % name, victim=list(A["addrs"][vi]),
+                           twin_step=B["gone"][vi], with_forgeries_step=A["gone"].get(vi, "never (still in the pool at the end of the run)"),
+                           forgeries_queued_for_it=A["queued"][A["addrs"][vi]], forged_in_twin_deadline_step=forged_of(B["gone"][vi]))
+        if bad is None and A["disconnect_event"] != B["disconnect_event"]:
+            bad = dict(case, what_differs="tick of EventHandler.disconnect for the silent peer", twin=B["disconnect_event"], with_forgeries=A["disconnect_event"])
+        if bad is None:
+            n = next((i for i, (x, y) in enumerate(zip(A["log"], B["log"])) if x != y), None)
+            if n is None and len(A["log"]) != len(B["log"]):
+                n = min(len(A["log"]), len(B["log"]))
+            if n is not None:
+                k = next((kk for kk, m in enumerate(A["marks"]) if n < m), len(A["marks"]))
+                bad = dict(case, what_differs="log", index=n, tick=k, forged_in_tick=forged_of(k - 1),
+                           with_forgeries=lib.jsonable(A["log"][n] if n < len(A["log"]) else None),
+                           twin=lib.jsonable(B["log"][n] if n < len(B["log"]) else None))
+        if bad is None:
+            for k, (x, y) in enumerate(zip(A["states"], B["states"])):
+                if x != y:
+                    bad = dict(case, what_differs="pools", tick=k, forged_in_tick=forged_of(k - 1), diff=first_diff(y, x))
+                    break
+        if bad is None and A["got"] != B["got"]:
+            bad = dict(case, what_differs="what the talking client received")
+        if bad is not None:
+            run.oracle_violation("keyless forgeries from a silent peer's address changed when the server loop dropped it (twin world without them differs)",
+                                 bad, "server.py UdpServerThread.run time-out scan / front door")
+        run.compare("srv_run", [dict(case, first_difference=lib.jsonable(A["model_diff"]))], ["agree"],
+                    ["agree" if not A["model_diff"] else "differ"])
+        nq = sum(A["queued"].values())
+        run.count("silent_victim_twin_worlds")
+        run.count("silent_victim_forgeries_queued", nq)
+        run.count("silent_victim_pattern_" + pattern)
+        if nq == 0:
+            raise RuntimeError("harness: no forgery was queued for a silent peer (%s, %s)" % (front, pattern))
+        run.nt(("silent-victim", front, pattern, ct, tt))
+        if nw < 2:
+            run.sample(dict(case, twin_dropped_at=B["gone"], forgeries_queued=nq))
+
+
 def run(run):
     logging.disable(logging.CRITICAL)
     inj = Injector(run)
@@ -1136,6 +1352,8 @@ def run(run):
     from harness import srvx as X
     server_loop_forgeries(run, run.rng, list(X.FRONTS) * (12 if thorough else 2) + ["udpserver"] * 2, 60 if thorough else 36)
     run.rules.append(LOOP_RULE)
+    server_loop_silent_victims(run, run.rng, (list(X.FRONTS) + ['udpserver']) * (8 if thorough else 2), thorough)
+    run.rules.append(SILENT_RULE)
     run.count("injected_total", inj.n)
     run.sample({"oracle": "deep snapshot equality around each injected datagram; twin session comparison",
                 "injected": inj.n, "refused_by_header_gate": inj.gate})
